@@ -58,7 +58,10 @@ fn other_password(pw: &str) -> String {
 }
 
 pub fn gen_password(rng: &mut Rng) -> String {
-    match rng.usize(7) {
+    match rng.usize(9) {
+        // at most 255 characters, but more than 255 UTF-16 code units
+        7 => (0..255).map(|i| if i < 201 { 'a' } else { '😀' }).collect(),
+        8 => (0..(128 + rng.usize(100))).map(|i| if i % 2 == 0 { '𝄞' } else { 'x' }).collect(),
         0 => String::new(),
         1 => "password".to_string(),
         2 => "Pa$$w0rd & <co>".to_string(),
